@@ -120,16 +120,16 @@ theorem executeLine_follow_agg (O : Oracles) (qy : Query) (q : AggStmt) (idx : J
       (followStep O q es.agg (lineEnv qy.table l)).bind (fun p =>
         .ok (updateLimit false q.limit { es with agg := p.1 } p.2)) := by
   simp only [executeLine, hq, hadm, lineEnvs, hj, Bool.not_true, Bool.false_eq_true, if_false, bind, Outcome.bind, if_true,
-    executeLine.go, followStep, lineEnv, pure]
+    aggEnvs, followStep, lineEnv, pure]
   cases h1 : aggUpdateRow O q es.agg (envOfInsertions (columnsMapping qy.table l.row l.text)) with
   | ok p =>
     obtain ⟨st1, u⟩ := p
     cases u with
-    | false => simp [executeLine.go]
+    | false => simp [aggEnvs]
     | true =>
-      simp only [if_true]
+      simp only [aggEnvs, Bool.false_or, if_true]
       cases h2 : aggResult O q st1 with
-      | ok r => simp [executeLine.go, extendOut]
+      | ok r => rfl
       | error k => rfl
       | panic k => rfl
       | oracleMissing k => rfl
